@@ -2,5 +2,6 @@ SPECIFICATION Spec
 CONSTANTS ScanRows = {1, 9, 23}
   ScanChunks = 48
   ScanChunkSize = 5000
+  DeepRows = {9}  DeepChunks = 1600
 INVARIANTS ParamsConsistent TablesWellFormed TuplesInRange WrapSolved EdgeInRange Emit
 CHECK_DEADLOCK FALSE
